@@ -120,6 +120,25 @@ static Verdict exec_C10(const Case &c) {
   long a0 = vf_wrap_allocs();
   Verdict v1 = exec_op(c);
   long n1 = vf_wrap_allocs() - a0;
+  // metamorphic relation of the property's "any prior contents of a supplied destination" clause: for operations that
+  // overwrite their destination, other destination contents (zeros / ones) must give the same digest - judged even when
+  // the model oracle of run 1 already fails, because this clause belongs to this property
+  bool dst_is_input = c.s("op").find("addmul") != std::string::npos || c.i("clear", 1) == 0 || c.s("op") == "mzd_copy_row" ||
+                      (c.s("op") == "mzd_copy" && (c.i("xm", 0) || c.i("xn", 0)));
+  bool has_dst = false;
+  for (auto &kv : c.kv)
+    if (kv.first.size() > 6 && kv.first.compare(kv.first.size() - 6, 6, ".jkind") == 0) has_dst = true;
+  std::string dst_dep;
+  if (has_dst && !dst_is_input) {
+    for (int jk = 0; jk < 2 && dst_dep.empty(); jk++) {
+      Case cv = c;
+      for (auto &kv : cv.kv)
+        if (kv.first.size() > 6 && kv.first.compare(kv.first.size() - 6, 6, ".jkind") == 0) kv.second = std::to_string(jk);
+      Verdict vd = exec_op(cv);
+      if (vd.outhash != v1.outhash)
+        dst_dep = std::string("the result depends on the prior contents of the supplied destination (junk vs. all-") + (jk ? "ones" : "zeros") + ")";
+    }
+  }
   // run 2: after a history, with fresh blocks pattern-filled and freed blocks poisoned
   int fill = (int)c.i("H.fill", -1);
   vf_wrap_set_fill(fill, fill >= 0 ? (fill ^ 0x3C) & 0xFF : -1);
@@ -131,6 +150,11 @@ static Verdict exec_C10(const Case &c) {
   vf_wrap_enable(0);
   r.labels = v2.labels;
   r.outhash = v2.outhash;
+  if (has_dst && !dst_is_input) r.label("destination-contents-varied");
+  if (!dst_dep.empty()) {
+    r.fail(dst_dep);
+    return r;
+  }
   if (!v1.ok) {
     // the padding clause of the property holds for every operation in every state
     if (v1.msg.find("non-zero padding") != std::string::npos) {
